@@ -10,6 +10,9 @@ AtBad(i, ev, at) ==
          m \in { m \in at.line.lo..at.line.hi : ~\E w \in LineWant(ev, at, m) : Agree9(w, RowOk(at.line, m), RowVal(at.line, m)) } }
   \cup { [prop |-> "C09", line |-> i, fn |-> "CSb_FluorLine", Z |-> ev.Z, m |-> m, E |-> FStr(at.E), got |-> [ok |-> RowOk(at.lineb, m), v |-> FStr(RowVal(at.lineb, m))]] :
          m \in { m \in at.line.lo..at.line.hi : ~Agree9(Barn(ev, IF RowOk(at.line, m) THEN Val_(RowVal(at.line, m)) ELSE Fail), RowOk(at.lineb, m), RowVal(at.lineb, m)) } }
-BadOf(i, ev) == IF ev.k = "xrf" THEN UNION { AtBad(i, ev, ev.at[j]) : j \in 1..Len(ev.at) } ELSE {[prop |-> "C09", line |-> i, why |-> "unexpected event"]}
+\* "the call fails" also for a caller without an error slot: same bits as with one (the 0 sentinel below the edge)
+NoSlot(i, ev, at) == { [prop |-> "C09", line |-> i, fn |-> r[1], Z |-> ev.Z, E |-> FStr(at.E), why |-> "called without an error slot the function returned something else than with one", cells |-> r[2].nd, first_macro |-> r[2].ndm] :
+                       r \in { r \in {<<"CS_FluorShell", at.shell>>, <<"CSb_FluorShell", at.shellb>>, <<"CS_FluorLine", at.line>>, <<"CSb_FluorLine", at.lineb>>} : r[2].nd # 0 } }
+BadOf(i, ev) == IF ev.k = "xrf" THEN UNION { AtBad(i, ev, ev.at[j]) \cup NoSlot(i, ev, ev.at[j]) : j \in 1..Len(ev.at) } ELSE {[prop |-> "C09", line |-> i, why |-> "unexpected event"]}
 Judged == JudgedWith(BadOf)
 ============================================================================
